@@ -46,6 +46,31 @@ let cls (lim : bool) (s : string) : z =
   z_of_int (if s = "" then 0 else if s = "xL" then 1 else match s.[0] with
     | 'b' | 'd' | 'r' -> 1 | 'u' -> 2 | 'p' | 'f' -> 3 | 'g' | 'x' | 'q' -> if lim then 4 else 0 | _ -> 0)
 
+(* raw command lines: token 17 = A<tag>:<tok>,<tok>,..  (each token percent-encoded; "%_" = the empty string; "!" = no
+   token at all).  The tag is the generator's note for the oracle; the model parses the tokens themselves. *)
+let ascii_of_char (c : char) : ascii =
+  let n = Char.code c in
+  let b i = (n lsr i) land 1 = 1 in
+  Ascii (b 0, b 1, b 2, b 3, b 4, b 5, b 6, b 7)
+let str_of_ocaml (s : string) : str =
+  let r = ref SNil in
+  for i = String.length s - 1 downto 0 do r := SCons (ascii_of_char s.[i], !r) done;
+  !r
+let pct_decode (s : string) : string =
+  if s = "%_" then "" else begin
+    let b = Buffer.create (String.length s) in
+    let i = ref 0 in
+    while !i < String.length s do
+      if s.[!i] = '%' && !i + 2 < String.length s + 0 && !i + 2 <= String.length s - 1 then begin
+        Buffer.add_char b (Char.chr (int_of_string ("0x" ^ String.sub s (!i + 1) 2))); i := !i + 3
+      end else begin Buffer.add_char b s.[!i]; incr i end
+    done;
+    Buffer.contents b
+  end
+let argv_of_token (t : string) : str list =
+  let body = String.sub t (String.index t ':' + 1) (String.length t - String.index t ':' - 1) in
+  if body = "!" then [] else List.map (fun x -> str_of_ocaml (pct_decode x)) (String.split_on_char ',' body)
+
 let () =
   try
     while true do
@@ -57,6 +82,10 @@ let () =
           let has c = String.contains modes c in
           let feat = match feat with "1" -> 1 | "2" -> 2 | _ -> 0 in
           let ((r, p), o) =
+            match rest with
+            | _ :: _ :: a :: _ when String.length a > 0 && a.[0] = 'A' ->
+              argv_case (argv_of_token a) (cls lim out) (cls lim cy) (cls false log) (cls false stdout_c) (pre out) (pre cy) (pre log)
+            | _ ->
             run_case (has 'h') (has 'j') (has 'c') (has 'D') (has 'm') (pretty = "1") (brief = "1")
               (z_of_int feat) (rfa = "1") (out <> "-") (log <> "-") (verbose = "off")
               (cls lim out) (cls lim cy) (cls false log) (cls false stdout_c) (pre out) (pre cy) (pre log) in
